@@ -1,3 +1,122 @@
+//! C16..C21: bounded exhaustive exploration of the real transaction pool
+//! (`PoolWorker` + `Pool` + graph storage + collision manager + selection
+//! algorithm of fuel-core-txpool), one harness, one oracle per property id.
+mod chain;
+mod subject;
+mod universe;
+
+use mcx::*;
+use serde_json::json;
+use std::sync::Arc;
+use subject::{Cfg, PoolSubject, Prop};
+
+const ALL: &[&str] = &["a", "b", "bb", "c", "d", "e", "q", "f", "g", "i", "h", "j", "k", "m", "r", "n", "o", "p"];
+/// coins, messages, chains, diamonds, collisions, wrong / missing inputs
+const FAMILY_COINS: &[&str] = &["a", "b", "bb", "c", "d", "e", "q", "f", "m", "r", "n", "o", "p"];
+/// contracts, blobs and an ordinary parent / child pair
+const FAMILY_CONTRACTS: &[&str] = &["g", "i", "h", "j", "k", "a", "d", "r"];
+
+fn configs(u: &universe::Universe, tier: Tier) -> Vec<Cfg> {
+    let gas_a = u.txs[u.idx("a")].gas;
+    let size_a = u.txs[u.idx("a")].size;
+    let base = Cfg {
+        name: "",
+        max_txs: 4,
+        chain_limit: 3,
+        max_gas: gas_a * 40,
+        max_bytes: size_a * 40,
+        rich: false,
+        multi_blocks: false,
+        big_cache: false,
+        txs: ALL.to_vec(),
+        max_dev: 1,
+    };
+    // count-limited pool (4 transactions, chains of 3); the spent-input cache holds 5 keys
+    // and overflows all the time; blocks carry <= 1 transaction.
+    // gas/byte-limited pool (the count, 64, never binds): about four scripts of gas; the
+    // spent-input cache (65 keys) can never overflow; blocks with several transactions.
+    let gas = |c: Cfg| Cfg { max_txs: 64, max_gas: gas_a * 4 + gas_a / 2, max_bytes: size_a * 6, multi_blocks: true, big_cache: true, ..c };
+    match tier {
+        Tier::Quick => vec![
+            Cfg { name: "coins/count4-chain3-cache5", txs: FAMILY_COINS.to_vec(), ..base.clone() },
+            Cfg { name: "contracts/count4-chain3-cache5", txs: FAMILY_CONTRACTS.to_vec(), ..base.clone() },
+            gas(Cfg { name: "coins/gas4-chain3-cache65", txs: FAMILY_COINS.to_vec(), ..base.clone() }),
+        ],
+        Tier::Thorough => vec![
+            Cfg { name: "all/count4-chain3-cache5", rich: true, max_dev: 3, ..base.clone() },
+            gas(Cfg { name: "all/gas4-chain3-cache65", rich: true, max_dev: 3, ..base.clone() }),
+            Cfg { name: "all/count3-chain2-cache4", max_txs: 3, chain_limit: 2, max_dev: 2, ..base },
+        ],
+    }
+}
+
 fn main() {
-    mcx::machinery_failure("not built yet");
+    let cli = Cli::parse();
+    let Some(prop) = Prop::parse(&cli.property) else {
+        machinery_failure(&format!("vh-txpool does not serve {}", cli.property));
+    };
+    let u = Arc::new(universe::build());
+    if std::env::var("VH_TXPOOL_SHOW").is_ok() {
+        for t in &u.txs {
+            println!(
+                "{:3} id={} tip={} gas={} size={} price={} coins={} msgs={} cin={} created={} blob={}",
+                t.name, t.id, t.tip, t.gas, t.size, t.max_gas_price, t.coin_inputs.len(), t.msg_inputs.len(),
+                t.contract_inputs.len(), t.created_contracts.len(), t.blob.is_some()
+            );
+        }
+    }
+    let subjects: Vec<PoolSubject> =
+        configs(&u, cli.tier).into_iter().map(|cfg| PoolSubject { u: u.clone(), prop, cfg }).collect();
+    if let Some(path) = &cli.replay {
+        let rf = load_replay(path);
+        // `step` does not depend on the richness of the alphabet, so the thorough list
+        // (a superset of configurations) serves every replay file
+        for cfg in configs(&u, Tier::Thorough).into_iter().chain(configs(&u, Tier::Quick)) {
+            let s = PoolSubject { u: u.clone(), prop, cfg };
+            if s.name() == rf.subject {
+                replay_and_exit(&s, &rf);
+            }
+        }
+        machinery_failure("replay: unknown subject");
+    }
+    let mut run = Run::new(&cli, "model_checking");
+    let depth = std::env::var("VH_TXPOOL_DEPTH").ok().and_then(|d| d.parse().ok()).unwrap_or(cli.tier.pick(5, 7));
+    let n = subjects.len() as u64;
+    for s in &subjects {
+        let b = Bounds::new(depth, &cli).deviations(s.cfg.max_dev).wall(cli.tier.pick(50, 1400 / n)).states(cli.tier.pick(600_000, 6_000_000));
+        run.add(explore(s, &b));
+    }
+    let hits = subject::event_hits();
+    // vacuity: the situations the properties talk about must really have occurred
+    let needed: &[&str] = match prop {
+        Prop::C16 => &["collision_won", "evicted_for_space", "cascade_removed_dependents", "block_with_pool_txs", "preconf_rolled_back", "pending_resolution_inserted"],
+        Prop::C17 => &["dependency_rule_rejected", "cascade_removed_dependents", "extraction_with_parent_and_child", "expired_with_dependents", "skipped_tx_dependents_removed"],
+        Prop::C18 => &["extraction_nonempty", "extraction_with_parent_and_child", "extraction_left_something_behind"],
+        Prop::C19 => &["must_reject_duplicate", "must_reject_missing_input", "must_reject_committed_input", "must_reject_handed_out_input", "must_reject_field_mismatch", "collision_won", "collision_lost", "equal_ratio_collision_rejected"],
+        Prop::C20 => &["block_with_pool_txs", "preconf_confirmed_by_block", "preconf_rolled_back", "rollback_evicted_dependents", "rollback_freed_resubmission", "late_preconf_ignored"],
+        Prop::C21 => &["squeeze_reports_checked", "collision_won", "evicted_for_space", "cascade_removed_dependents", "rollback_evicted_dependents", "expired_with_dependents", "skipped_tx_dependents_removed"],
+    };
+    for n in needed {
+        if hits.get(*n).copied().unwrap_or(0) == 0 {
+            machinery_failure(&format!("vacuous exploration: event `{n}` never occurred"));
+        }
+    }
+    run.note("event_hits", json!(hits));
+    run.note(
+        "universe",
+        json!(u.txs.iter().map(|t| json!({"name": t.name, "tip": t.tip, "max_gas": t.gas, "size": t.size, "max_gas_price": t.max_gas_price})).collect::<Vec<_>>()),
+    );
+    run.note("oracle", json!(cli.property));
+    run.assume("transactions are prepared by the service's own verification pipeline (hook verify_transaction) against the genesis state; 18 fixed transactions");
+    run.assume("the persistent-storage port is a map/set model of the chain; an imported block is applied to it before the pool is told, as the importer does");
+    run.assume("wall-clock stamps never enter observations or the canonical state; all pairs of transactions that can be pooled together have strictly and identically ordered tip/gas and (tip+1)/gas, so the creation-time tie-breaker is never consulted");
+    run.assume("the worker's handlers are called one at a time (the worker is single-threaded by construction); queued pending-pool resolutions are an explicit letter");
+    match prop {
+        Prop::C18 => run.assume("'executable at the same time' = same dependency depth within one extraction"),
+        Prop::C19 => run.assume("only the stated implications are checked: rejections the statement does not require are never alarms; 'handed out and not yet settled' = extracted since the last imported block and neither committed nor skipped; outputs of handed-out or preconfirmed transactions count as existing"),
+        Prop::C20 => run.assume("'may be submitted again' = not refused as duplicate, nor as already-spent for an input that is unspent on chain and not held by another in-flight transaction (side-effect free admission probe + spent-tx probe)"),
+        Prop::C21 => run.assume("a transaction skipped by the block producer (squeezed-out preconfirmation for itself) is not constrained: the status service already knows"),
+        _ => {}
+    }
+    run.finish();
 }
